@@ -31,7 +31,7 @@ class QuaHitList(HitList[QuaHit], QuaNoteList[QuaHit]):
     def to_yaml(self):
         df = self.df.copy()
         df.column += 1
-        return (
+        return self._drop_missing(
             df.astype(dict(offset=int, column=int))
             .rename(
                 dict(offset="StartTime", column="Lane", keysounds="KeySounds"), axis=1
